@@ -59,4 +59,45 @@ def Consistent (s : State) : Prop :=
 def WellFiled (st : Store) : Prop :=
   ∀ k v, lookup st k = some v → v.slot = k ∧ 0 ≤ v.ts ∧ v.ts < tsLimit
 
+/-! ### histories -/
+
+inductive Op where
+  | raw (f : Fault) (batch : List Val)     -- SetRaw / pushed message / one pulled batch
+  | set (f : Fault) (own : Bool) (v : Val) -- local Set
+deriving Repr
+
+def stepOp (s : State) : Op → State × Res
+  | .raw f b => setRaw f b s
+  | .set f own v => localSet f own v s
+
+def run (s : State) : List Op → State
+  | [] => s
+  | o :: ops => run (stepOp s o).1 ops
+
+def opVals : Op → List Val
+  | .raw _ b => b
+  | .set _ _ v => [v]
+
+/-- what one operation contributes to "the values received": the acceptable values of a pushed / pulled
+batch that did not fail, the locally written value of a local Set that returned nil -/
+def contrib (o : Op) (r : Res) : List Val :=
+  match o, r with
+  | .raw _ b, .ok _ => b.filter acceptable
+  | .set _ _ v, .ok _ => [v]
+  | _, _ => []
+
+def received (s : State) : List Op → List Val
+  | [] => []
+  | o :: ops => contrib o (stepOp s o).2 ++ received (stepOp s o).1 ops
+
+/-- timestamps of locally written values are in the exact range (the clock is sane) -/
+def LocalRange (ops : List Op) : Prop :=
+  ∀ f own v, Op.set f own v ∈ ops → 0 ≤ v.ts ∧ v.ts < tsLimit
+
+/-- a value the store signs itself is acceptable whenever its account may write -/
+def LocalAuthentic (ops : List Op) : Prop :=
+  ∀ f v, Op.set f true v ∈ ops → Acceptable v
+
+def Authentic (st : Store) : Prop := ∀ k v, lookup st k = some v → Acceptable v ∧ v.slot = k
+
 end AnySync.KV
